@@ -82,7 +82,7 @@ def families(tier):
                         continue     # the text printed for a null string is a glibc extension; compare only where all of it is printed
                     cases.append(('%' + fl + w + p + 's', b + [('s', s)]))
     cases += [('%%', []), ('a%%b%dc', [('i', 5)]), ('x=%d, y=%s!', [('i', -3), ('s', b'yz')]), ('%2$d %1$d', [('i', 1), ('i', 2)]), ('%1$d %1$d', [('i', 4)]),
-              ('%2$s|%1$5d|', [('i', 42), ('s', b'ab')]), ('%2$d %1$d %2$d', [('i', 1), ('i', 2)]), ('%3$d %1$d %3$d %2$d', [('i', 1), ('i', 2), ('i', 3)]), ('%*d', [('i', -6), ('i', 42)]), ('%.*d', [('i', -1), ('i', 42)]), ('%-*d|', [('i', 6), ('i', 42)]),
+              ('%2$s|%1$5d|', [('i', 42), ('s', b'ab')]), ('%2$d %1$d %2$d', [('i', 1), ('i', 2)]), ('%3$d %1$d %3$d %2$d', [('i', 1), ('i', 2), ('i', 3)]), ('%*d', [('i', -6), ('i', 42)]), ('%.*d|', [('i', 0), ('i', 0)]), ('%5.*d|', [('i', 0), ('i', 0)]), ('%.*s|', [('i', 0), ('s', b'hello')]), ('%0*.*d|', [('i', 6), ('i', 0), ('i', 7)]), ('%.*x|', [('i', 1), ('i', 255)]), ('%.*d', [('i', -1), ('i', 42)]), ('%-*d|', [('i', 6), ('i', 42)]),
               ('%p', [('p', 0x1234)]), ('%p', [('p', 0xffffffffffffffff)]), ("%'d", [('i', 1234567)]), ("%'8d", [('i', 12)])]
     yield ('chars_strings_misc', [c for c in cases if '$' not in c[0]])
     # positional arguments go through the union arg_list (byte-level reasoning in CBMC: tens of seconds per directive): one case per run
@@ -170,6 +170,9 @@ def fmt_cases(tier):
         # positions, the string argument, literal text, the brace escape
         d = fmt_render(x, False, 0, '')
         out += [('{}{}', x, d + 'ab'), ('{1}{0}', x, 'ab' + d), ('{0}{0}', x, d + d), ('{} and {}!', x, d + ' and ab!'), ('{1:8}|', x, 'ab|'),
+                # options of one spec must not leak into the next one
+                ('{0:x}|{0}', x, fmt_render(x, False, 0, 'x') + '|' + d), ('{0:08}|{0}|{0:3}', x, fmt_render(x, True, 8, '') + '|' + d + '|' + fmt_render(x, False, 3, '')),
+                ('{0:X}|{0:x}|{0:o}|{0}', x, fmt_render(x, False, 0, 'X') + '|' + fmt_render(x, False, 0, 'x') + '|' + fmt_render(x, False, 0, 'o') + '|' + d),
                 ('{{}', x, '{}'), ('a{{b', x, 'a{b'), ('', x, ''), ('no specs', x, 'no specs'),
                 # malformed or out-of-range specs are echoed unchanged
                 ('{2}', x, '{2}'), ('x{7}y{}', x, 'x{7}y' + 'ab'), ('{:q}', x, '{:q}'), ('{a}', x, '{a}'), ('{0:5d5}', x, '{0:5d5}'), ('{0', x, '{0'), ('tail {', x, 'tail {'),
